@@ -85,8 +85,13 @@ fn engine_sh() {
                 let mut e = mk_exec(&argv);
                 for kv in toks[1].split(',') {
                     let mut it = kv.splitn(2, ':');
-                    let (k, v) = (unhex(it.next().unwrap_or("")), unhex(it.next().unwrap_or("")));
-                    e = e.env(s(&k), s(&v));
+                    let (k, v) = (it.next().unwrap_or(""), it.next().unwrap_or(""));
+                    // `<name>:-` removes the variable (`Exec::env_remove`): a removed variable of the parent is printed as `NAME=`
+                    if v == "-" {
+                        e = e.env_remove(s(&unhex(k)));
+                    } else {
+                        e = e.env(s(&unhex(k)), s(&unhex(v)));
+                    }
                 }
                 let cl = e.to_cmdline_lossy();
                 let dbg = format!("{:?}", e);
@@ -209,9 +214,11 @@ fn shreal_one(line: &str, tid: usize) -> String {
             }
             r
         }
-        Some("cmds") if toks.len() == 3 => {
+        // `cmdse <dir> <name>,<name>.. <text>`: as `cmds`, and the started program also reports the values it sees for the named variables
+        Some("cmds") | Some("cmdse") if toks.len() == 3 || (toks[0] == "cmdse" && toks.len() == 4) => {
             let dir = toks[1];
-            let text = unhex(toks[2]);
+            let names = if toks[0] == "cmdse" { toks[2] } else { "" };
+            let text = unhex(toks[toks.len() - 1]);
             if text.contains(&0) {
                 return "unrepresentable".into();
             }
@@ -224,6 +231,7 @@ fn shreal_one(line: &str, tid: usize) -> String {
                 .arg(std::ffi::OsStr::from_bytes(&text))
                 .env("PATH", format!("{}/bin", dir))
                 .env("ARGV_DUMP_LOG", &log)
+                .env("ARGV_DUMP_ENV", names)
                 .stdin(Stdio::null())
                 .stdout(Stdio::null())
                 .stderr(Stdio::null())
@@ -269,6 +277,17 @@ fn argv_dump() {
         let b = if i == 0 { b.rsplit(|&c| c == b'/').next().unwrap() } else { b };
         rec.extend_from_slice(format!("{}:", b.len()).as_bytes());
         rec.extend_from_slice(b);
+    }
+    // the variables named in $ARGV_DUMP_ENV, as extra items `=<name>=<value>` (only those that are set)
+    if let Ok(names) = std::env::var("ARGV_DUMP_ENV") {
+        for n in names.split(',').filter(|n| !n.is_empty()) {
+            if let Some(v) = std::env::var_os(n) {
+                let mut item = format!("={}=", n).into_bytes();
+                item.extend_from_slice(v.as_bytes());
+                rec.extend_from_slice(format!("{}:", item.len()).as_bytes());
+                rec.extend_from_slice(&item);
+            }
+        }
     }
     rec.push(b'\n');
     if let Some(p) = std::env::var_os("ARGV_DUMP_LOG") {
